@@ -178,7 +178,7 @@ def handleNematic (toks : List String) : Option String := do
       for y in List.range 2 do
         qs := Qi x y :: qs
     let s : Float :=
-      if eig = 1 then eigMax2 (Qi 0 0) (Qi 0 1) (Qi 1 0) (Qi 1 1) * 2.0
+      if eig = 1 then nematicEig (eigMax2 (Qi 0 0) (Qi 0 1) (Qi 1 0) (Qi 1 1))
       else nematicTrace Float.sqrt 2 (fun x y => ratToFloat (Qi x y))
     ss := s :: ss
   pure (joinRat qs.reverse ++ " | " ++ " ".intercalate (ss.reverse.map showFloat))
